@@ -220,9 +220,22 @@ impl StreamData {
     }
     
     /// Add entry with auto-generated ID - OPTIMIZED HOT PATH
+    ///
+    /// The new ID is derived from the last ID recorded under this lock, so it is greater than
+    /// every ID the stream has ever held; `None` when no greater ID exists.
     #[inline]
-    fn add_auto(&mut self, fields: HashMap<Vec<u8>, Vec<u8>>, stream: &Stream) -> StreamId {
-        let id = StreamId::generate_next_atomic(&stream.last_id_millis, &stream.last_id_seq);
+    fn add_auto(&mut self, fields: HashMap<Vec<u8>, Vec<u8>>, stream: &Stream) -> Option<StreamId> {
+        let now_millis = get_cached_millis();
+        let last = self.last_id;
+        let id = if now_millis > last.millis() {
+            StreamId::new(now_millis, 0)
+        } else if last.seq() < u64::MAX {
+            StreamId::new(last.millis(), last.seq() + 1)
+        } else if last.millis() < u64::MAX {
+            StreamId::new(last.millis() + 1, 0)
+        } else {
+            return None;
+        };
         
         // Pre-calculate size before creating entry
         let fields_size: usize = fields.iter()
@@ -239,9 +252,11 @@ impl StreamData {
         
         // Update atomic metadata with relaxed ordering for non-critical updates
         stream.length.fetch_add(1, Ordering::Relaxed);
+        stream.last_id_millis.store(id.millis(), Ordering::Relaxed);
+        stream.last_id_seq.store(id.seq(), Ordering::Relaxed);
         stream.memory_usage.fetch_add(entry_size, Ordering::Relaxed);
         
-        id
+        Some(id)
     }
     
     /// Add entry with specific ID - NO CLONING!
@@ -355,6 +370,11 @@ impl Stream {
     
     /// Add entry with auto-generated ID - DIRECT MUTATION, NO CLONING!
     pub fn add_auto(&self, fields: HashMap<Vec<u8>, Vec<u8>>) -> StreamId {
+        self.try_add_auto(fields).expect("stream has exhausted the last possible ID")
+    }
+    
+    /// Add entry with auto-generated ID; `None` when the stream already holds the greatest possible ID
+    pub fn try_add_auto(&self, fields: HashMap<Vec<u8>, Vec<u8>>) -> Option<StreamId> {
         let mut data = self.data.lock().unwrap();
         data.add_auto(fields, self)
     }
